@@ -187,6 +187,11 @@ def ideal_refs():
     return [{"ideal": s} for s in IDEAL_SMILES]
 
 
+# a chain of 268 heavy atoms: atom indices beyond 255.  Not part of all_refs(): the model of the fingerprinter is far too slow on
+# it for deep runs; C02 and C03 take it once per run with few levels (cap_opts)
+HUGE_REF = {"smiles": "OC(=O)" + "CCO" * 88 + "C", "nconf": 1, "seed": 5, "hs": False}
+
+
 def all_refs():
     refs = [{"sdf": os.path.relpath(p, vlib.REPO)} for p in sdf_paths()]
     refs += [{"smiles": s, "nconf": 2, "seed": 7, "hs": True} for s in SMILES]
@@ -323,6 +328,14 @@ def gen_opts(rng, level=None):
          "exclude_floating": rng.random() < 0.75, "remove_duplicate_substructs": rng.random() < 0.8}
     if o["level"] == -1:
         o["remove_duplicate_substructs"] = True
+    return o
+
+
+def cap_opts(ref, o):
+    """the 268-heavy-atom chain is there for its atom indices, not for deep runs: few levels, moderate radius"""
+    if ref == HUGE_REF:
+        o["level"] = {0: 0, 1: 1, 2: 2}.get(o["level"], 3)
+        o["radius_multiplier"] = min(o["radius_multiplier"], 1.718)
     return o
 
 
